@@ -17,6 +17,8 @@ fn run_case(fam: &str, args: &[i128]) -> Vec<i128> {
         "adjustable" => adjustable::run(args),
         "csm" => csm::run(args),
         "csmconc" => csm::run_conc(args),
+        "csmreent" => csm::run_reent(args),
+        "causalrd" => causal::run_readers(args),
         "causal" => causal::run(args, 1),
         "causalrm" => causal::run_rm(args, 1, true),
         "causalrm2" => causal::run_rm2(args, 1, true, true),
